@@ -407,7 +407,7 @@ class RvGen(_Base):
             want_reg = a.reg
             choice = r.random()
             if natural and want_reg is None:
-                pool = [v for v in body.vals if v.kind == a.kind and v.reg is None and v not in ys]
+                pool = [v for v in body.vals if v.kind == a.kind and v.reg is None and v not in ys and not v.is_arg]
                 opool = [v for v in outer.visible() if v.kind == a.kind and v.reg is None]
                 if choice < 0.55 and pool:
                     ys.append(r.choice(pool))
@@ -417,7 +417,7 @@ class RvGen(_Base):
                     ys.append(r.choice(opool))
                     self.features.add("yield-outer-value")
                     continue
-            if choice < 0.15 and want_reg is None and not a.consumed:
+            if choice < self.cfg.get('p_passthrough', 0.06) and want_reg is None and not a.consumed:
                 ys.append(a)  # pass-through of the own position
                 self.features.add("yield-passthrough")
                 continue
@@ -442,7 +442,7 @@ class RvGen(_Base):
                 else:
                     self.emit(f"{nm} = riscv.fmv.d {s1.name} : ({self.vty(s1)}) -> {self.ty('f', want_reg)}")
             ys.append(Val(nm, a.kind, want_reg, body))
-        if natural and len(args) >= 2 and r.random() < 0.35:
+        if natural and len(args) >= 2 and r.random() < 0.2:
             # yield of other positions' arguments (fibonacci-style rotation), unallocated positions of one kind
             idx = [k for k, a in enumerate(args) if a.reg is None]
             for kind in "if":
@@ -460,7 +460,7 @@ class RvGen(_Base):
         x = self.xl
         kinds = "iif" if c["floats"] else "i"
         lbv = r.choice([0, 0, 1, -2])
-        trip = r.choice([0, 1, 2, 2, 3, 4])
+        trip = r.choice([0, 1, 2, 2, 3, 4] if depth == 0 else [0, 1, 2, 2])
         stepv = r.choice([1, 1, 2, 3])
         ubv = lbv + trip * stepv - (r.randint(0, stepv - 1) if trip else 0)
         lb = self.const(scope, "i", lbv)
@@ -530,6 +530,8 @@ class RvGen(_Base):
             v.consumed = True
             if v in scope.vals:
                 scope.vals.remove(v)
+        if not [v for v in scope.visible() if v.kind == "f" and v.reg is None]:
+            self.const(scope, "f")  # the body may only contain FPU instructions: its operands come from outside
         body = Scope(scope)
         args = [Val(self.fresh("fa"), "f", v.reg, body, is_arg=True) for v in inits]
         body.vals.extend(args)
@@ -952,7 +954,7 @@ class X86Gen(_Base):
         c = self.cfg
         ivk = r.choice([q for q in c["widths"] if q in (64, 32)] or [64])
         lbv = r.choice([0, 0, 1, -2])
-        trip = r.choice([0, 1, 2, 2, 3, 4])
+        trip = r.choice([0, 1, 2, 2, 3, 4] if depth == 0 else [0, 1, 2, 2])
         stepv = r.choice([1, 1, 2, 3])
         ubv = lbv + trip * stepv - (r.randint(0, stepv - 1) if trip else 0)
         lb = self.const(scope, ivk, lbv)  # fresh: dies at the loop (in/out with the induction variable)
@@ -999,7 +1001,7 @@ class X86Gen(_Base):
                 ys.append(r.choice(pool))
                 self.features.add("yield-body-value")
                 continue
-            if r.random() < 0.15 and not a.consumed:
+            if r.random() < c.get('p_passthrough', 0.06) and not a.consumed:
                 ys.append(a)
                 continue
             safe = [v for v in body.visible() if v.kind == a.kind and (not v.is_arg or v is a) and v.reg is None]
@@ -1095,3 +1097,109 @@ def gen_x86(rng, cfg=None):
     out = g.function()
     out["cfg"] = {k: v for k, v in cfg.items() if k != "weights"}
     return out
+
+
+# ============================================================================================== scf -> riscv
+SCF_BIN = ["addi", "subi", "muli", "andi", "ori", "xori", "shli", "shrui", "shrsi", "divui", "divsi", "remui", "remsi"]
+SCF_FBIN = ["addf", "subf", "mulf", "divf"]
+
+
+class ScfGen:
+    """Small func/arith/scf.for programs (i32 / f32) whose lowering by xDSL's own riscv passes
+    (convert-func-to-riscv-func, convert-scf-to-riscv-scf, convert-arith-to-riscv, reconcile-unrealized-casts)
+    is the input of the allocator: "arith-lowered code" with whatever yields the source program has."""
+
+    def __init__(self, rng, cfg):
+        self.rng, self.cfg, self.n, self.lines = rng, cfg, 0, []
+
+    def fresh(self):
+        self.n += 1
+        return f"%s{self.n}"
+
+    def emit(self, ind, s):
+        self.lines.append("  " * ind + s)
+
+    def pick(self, vals, ty):
+        c = [v for v, t in vals if t == ty]
+        if not c:
+            nm = self.fresh()
+            if ty == "i32":
+                self.emit(self.ind, f"{nm} = arith.constant {self.rng.choice([0, 1, -1, 7, 100000, -2147483648])} : i32")
+            else:
+                self.emit(self.ind, f"{nm} = arith.constant {self.rng.choice(['0.0', '1.5', '-2.25', '3.0e+10'])} : f32")
+            vals.append((nm, ty))
+            return nm
+        return self.rng.choice(c[-6:] if self.rng.random() < 0.5 else c)
+
+    def stmts(self, vals, n, depth):
+        r = self.rng
+        tys = ["i32", "i32", "f32"] if self.cfg["floats"] else ["i32"]
+        for _ in range(n):
+            q = r.random()
+            if q < 0.15:
+                ty = r.choice(tys)
+                nm = self.fresh()
+                if ty == "i32":
+                    self.emit(self.ind, f"{nm} = arith.constant {r.choice([0, 0, 1, -1, 5, 255, 2147483647])} : i32")
+                else:
+                    self.emit(self.ind, f"{nm} = arith.constant {r.choice(['0.0', '1.0', '-0.5', '2.5e+3'])} : f32")
+                vals.append((nm, ty))
+            elif q < 0.85 or depth >= self.cfg["max_depth"]:
+                ty = r.choice(tys)
+                a, b = self.pick(vals, ty), self.pick(vals, ty)
+                nm = self.fresh()
+                op = r.choice(SCF_BIN if ty == "i32" else SCF_FBIN)
+                self.emit(self.ind, f"{nm} = arith.{op} {a}, {b} : {ty}")
+                vals.append((nm, ty))
+            else:
+                self.loop(vals, depth)
+
+    def loop(self, vals, depth):
+        r = self.rng
+        lb, ub, st = self.fresh(), self.fresh(), self.fresh()
+        lbv, stepv = r.choice([0, 0, 1]), r.choice([1, 1, 2])
+        trip = r.choice([0, 1, 2, 3] if depth == 0 else [0, 1, 2])
+        self.emit(self.ind, f"{lb} = arith.constant {lbv} : index")
+        self.emit(self.ind, f"{ub} = arith.constant {lbv + trip * stepv} : index")
+        self.emit(self.ind, f"{st} = arith.constant {stepv} : index")
+        tys = ["i32", "i32", "f32"] if self.cfg["floats"] else ["i32"]
+        car = [r.choice(tys) for _ in range(r.choice([1, 1, 2, 2, 3]))]
+        inits = [self.pick(vals, t) for t in car]
+        iv = self.fresh()
+        args = [self.fresh() for _ in car]
+        res = [self.fresh() for _ in car]
+        self.emit(self.ind, f"{', '.join(res)} = scf.for {iv} = {lb} to {ub} step {st} iter_args("
+                  + ", ".join(f"{a} = {i}" for a, i in zip(args, inits)) + f") -> ({', '.join(car)}) {{")
+        self.ind += 1
+        inner = list(vals) + list(zip(args, car))
+        if r.random() < 0.5:
+            c = self.fresh()
+            self.emit(self.ind, f"{c} = arith.index_cast {iv} : index to i32")
+            inner.append((c, "i32"))
+        self.stmts(inner, r.randint(1, self.cfg["body_size"]), depth + 1)
+        ys = [self.pick(inner, t) for t in car]  # any visible value: block arguments of any position, outer values, ...
+        self.emit(self.ind, f"scf.yield {', '.join(ys)} : {', '.join(car)}")
+        self.ind -= 1
+        self.emit(self.ind, "}")
+        vals.extend(zip(res, car))
+
+    def function(self):
+        r = self.rng
+        nargs = r.randint(1, 3)
+        self.ind = 1
+        vals = [(f"%arg{i}", "i32") for i in range(nargs)]
+        self.stmts(vals, self.cfg["size"], 0)
+        nret = r.choice([1, 1, 2])
+        rets = [self.pick(vals, "i32") for _ in range(nret)]
+        self.emit(1, f"func.return {', '.join(rets)} : {', '.join(['i32'] * nret)}")
+        text = (f"func.func @f({', '.join(f'%arg{i}: i32' for i in range(nargs))}) -> ({', '.join(['i32'] * nret)}) {{\n"
+                + "\n".join(self.lines) + "\n}\n")
+        return text, nargs
+
+
+def gen_scf(rng):
+    cfg = {"floats": rng.random() < 0.3, "size": rng.choice([2, 4, 8, 14]), "body_size": rng.choice([2, 4, 7]),
+           "max_depth": rng.choice([1, 2]), "pressure": rng.choice([6, 12])}
+    text, nargs = ScfGen(rng, cfg).function()
+    return {"arch": "riscv", "xlen": 32, "source": text, "n_int_args": nargs, "n_float_args": 0,
+            "features": ["lowered-from-scf"], "cfg": cfg}
